@@ -27,6 +27,17 @@ def value_names(v):
         return T.ivars(v[1]) | T.isyms(v[1])
     if k == "size":
         return v[1].symbols()
+    if k == "ref":
+        sy = set()
+        for st_ in v[1].path:
+            if st_[0] == "br":
+                sy |= st_[1].symbols() | st_[2].symbols()
+        return sy
+    if k in ("inout", "iobuf"):
+        sy = set()
+        for tg in v[1:3]:
+            sy |= value_names(("ref", tg))
+        return sy
     if k in ("tuple",):
         s = set()
         for x in v[1]:
@@ -55,14 +66,28 @@ def vsub(v, venv, lenv, F):
     if k == "int":
         return vint(T.isubst(v[1], venv, lenv, F))
     if k == "size":
-        return vsize(T.lsub(v[1], {a: b for a, b in lenv.items() if a != "__ivars__"}))
+        return vsize(T.lsub(v[1], {a: b for a, b in lenv.items() if not a.startswith("__")}))
     if k == "tuple":
         return ("tuple", [vsub(x, venv, lenv, F) for x in v[1]])
     if k == "struct":
         return ("struct", v[1], {n: vsub(x, venv, lenv, F) for n, x in v[2].items()})
     if k == "enum":
         return ("enum", v[1], v[2], v[3], [vsub(x, venv, lenv, F) for x in v[4]])
+    if k == "ref":
+        return ("ref", _tsub(v[1], lenv))
+    if k == "inout":
+        return ("inout", _tsub(v[1], lenv), _tsub(v[2], lenv))
+    if k == "iobuf":
+        le = {a: b for a, b in lenv.items() if not a.startswith("__")}
+        return ("iobuf", _tsub(v[1], lenv), _tsub(v[2], lenv), T.lsub(v[3], le))
     return v
+
+
+def _tsub(tg, lenv):
+    le = {a: b for a, b in lenv.items() if not a.startswith("__")}
+    if not le:
+        return tg
+    return Target(tg.cell, tuple((("br", T.lsub(st_[1], le), T.lsub(st_[2], le)) if st_[0] == "br" else st_) for st_ in tg.path))
 
 
 def veq(a, b, F):
@@ -77,7 +102,19 @@ def veq(a, b, F):
     if a[0] == "size":
         return F.prove_eq(a[1] - b[1])
     if a[0] == "ref":
-        return a[1].key() == b[1].key()
+        if a[1].key() == b[1].key():
+            return True
+        if a[1].cell != b[1].cell or len(a[1].path) != len(b[1].path):
+            return False
+        for x, y in zip(a[1].path, b[1].path):
+            if x[0] != y[0]:
+                return False
+            if x[0] == "br":
+                if not (F.prove_eq(x[1] - y[1]) and F.prove_eq(x[2] - y[2])):
+                    return False
+            elif x != y:
+                return False
+        return True
     if a[0] == "tuple" and len(a[1]) == len(b[1]):
         return all(veq(x, y, F) for x, y in zip(a[1], b[1]))
     if a[0] == "struct" and a[1] == b[1] and set(a[2]) == set(b[2]):
@@ -89,13 +126,14 @@ def veq(a, b, F):
     return False
 
 
-def run_iteration(ip, st, fr, H, var, N, placeholders):
+def run_iteration(ip, st, fr, H, var, N, placeholders, region=None, cont=None):
     s = st.fork()
     v = Lin.sym(var)
     s.F.add_ge(v)
-    s.F.add_ge(N - 1 - v)
+    if N is not None:
+        s.F.add_ge(N - 1 - v)
     s.F.saturate({var})
-    s.loopmode[(fr.id, H)] = ("iter", var)
+    s.loopmode[(fr.id, H)] = ("iter", var) if region is None else ("while", var)
     s.wlog = []
     s.rlog = []
     for (cell, fpath), ph in placeholders.items():
@@ -104,11 +142,17 @@ def run_iteration(ip, st, fr, H, var, N, placeholders):
     c0 = len(s.conds)
     o0 = len(s.oblig)
     e0 = len(s.events)
-    outs = ip.exec_from(s, fr, H, stop_at=H, start=True)
+    outs = ip.exec_from(s, fr, H, stop_at=H, start=True, region=region)
     res = []
     for kind, s2, _ in outs:
         if kind == "stop":
             res.append(s2)
+        elif kind == "exit" and region is not None:
+            # leaving a condition-driven loop: only through the negation of the continue condition
+            extra = s2.conds[c0:]
+            if len(extra) <= 1:
+                continue      # the only branch taken since the header is the loop condition itself
+            raise Undecided("loop in %s has an exit other than its loop condition" % fr.body["path"])
         elif kind == "panic":
             st.oblig.append({"kind": "panic-path", "fn": fr.body["path"], "ok": False, "detail": "explicit panic reachable inside loop"})
         else:
@@ -145,20 +189,46 @@ def summarise_loop(ip, st, fr, H):
     # 1. probe the iterator
     s0 = st.fork()
     s0.loopmode[key] = ("probe",)
+    region = None
+    cont = None
+    affine = {}
+    var = T.fresh("$i")
+    is_iter = True
     try:
-        ip.exec_block(s0, fr, H)
-        raise Undecided("loop at bb%d of %s is not driven by Iterator::next" % (H, fr.body["path"]))
+        blk = fr.body["blocks"][H]
+        t = blk["term"]
+        if not (t["k"] == "call" and t["func"]["k"] == "const" and "fn" in t["func"] and t["func"]["fn"]["name"] == "next"):
+            is_iter = False
+        else:
+            ip.exec_block(s0, fr, H)
+            is_iter = False
     except prims.LoopProbe as lp:
         it = lp.it
-    N = prims.iter_count(ip, st, it)
+    if is_iter:
+        N = prims.iter_count(ip, st, it)
+    else:
+        from .interp import natural_loop
+        region = natural_loop(fr.body, H)
+        res = while_trip_count(ip, st, fr, H, var, region)
+        if res is None:
+            st.loopmode[key] = ("done",)
+            return [st]
+        if isinstance(res, list):
+            # trip count needed a case split: summarise each case separately
+            out = []
+            for s2 in res:
+                out.extend(summarise_loop(ip, s2, fr, H))
+            return out
+        N, affine = res
+        cont = True
     if st.F.prove_eq(N):
         st.loopmode[key] = ("done",)
         return [st]
-    if N.is_const() and 0 < N.c <= 3:
+    if is_iter and N.is_const() and 0 < N.c <= 3:
         return unroll_loop(ip, st, fr, H, N.c)
-    var = T.fresh("$i")
     # 2. discovery pass
-    outsA, c0, _, _ = run_iteration(ip, st, fr, H, var, N, {})
+    fixed = {loc: affine_value(a, Lin.sym(var)) for loc, a in affine.items()}
+    outsA, c0, _, _ = run_iteration(ip, st, fr, H, var, N, dict(fixed), region, cont)
     carried = {}
     mapped = {}
     for s in outsA:
@@ -167,6 +237,8 @@ def summarise_loop(ip, st, fr, H):
                 continue
             fpath, br, rest = split_path(path)
             loc = (cell, fpath)
+            if loc in affine:
+                continue
             if br is None or var not in br[1].symbols():
                 carried[loc] = True
             else:
@@ -178,6 +250,7 @@ def summarise_loop(ip, st, fr, H):
     # 3. placeholders
     ph = {}
     phname = {}
+    refph = {}
     pre = {}
     for loc in carried:
         cell, fpath = loc
@@ -199,7 +272,14 @@ def summarise_loop(ip, st, fr, H):
             nm = T.fresh("$ph")
             ph[loc] = vsize(Lin.sym(nm))
             phname[loc] = nm
-    outs, c0, o0, e0 = run_iteration(ip, st, fr, H, var, N, ph)
+        elif pv[0] == "ref" and pv[1].path and pv[1].path[-1][0] == "br":
+            n1, n2 = T.fresh("$ph"), T.fresh("$ph")
+            tg = pv[1]
+            ph[loc] = ("ref", Target(tg.cell, tg.path[:-1] + (("br", Lin.sym(n1), Lin.sym(n2)),)))
+            refph[loc] = (n1, n2)
+    ph2 = dict(ph)
+    ph2.update(fixed)
+    outs, c0, o0, e0 = run_iteration(ip, st, fr, H, var, N, ph2, region, cont)
     Fi = outs[0].F.copy() if len(outs) == 1 else st.F.copy()
     v = Lin.sym(var)
     if len(outs) != 1:
@@ -213,7 +293,7 @@ def summarise_loop(ip, st, fr, H):
                 continue
             fpath, br, rest = split_path(path)
             loc = (cell, fpath)
-            if loc in carried or br is None:
+            if loc in carried or br is None or loc in affine:
                 continue
             if var not in br[1].symbols():
                 raise Undecided("unstable write region in loop")
@@ -253,6 +333,9 @@ def summarise_loop(ip, st, fr, H):
         tmpl[loc] = merged_load(ip, outs, c0, Target(loc[0], loc[1] + (("br", lo, ln),)), Fi)
     # 5. solve carried state
     names = {phname[l]: l for l in phname}
+    for l, (n1, n2) in refph.items():
+        names[n1] = l
+        names[n2] = l
     V = {}       # loc -> value at start of iteration `var`
     final = {}   # loc -> value after the loop
     recs = {}
@@ -273,6 +356,11 @@ def summarise_loop(ip, st, fr, H):
                 ivs[nm] = vv[1]
             elif vv[0] == "size":
                 lenv[nm] = vv[1]
+        for l, vv in V.items():
+            if l in refph and vv[0] == "ref":
+                br = vv[1].path[-1]
+                lenv[refph[l][0]] = br[1]
+                lenv[refph[l][1]] = br[2]
         if ivs:
             lenv["__ivars__"] = ivs
         if not venv and not lenv:
@@ -287,6 +375,22 @@ def summarise_loop(ip, st, fr, H):
             deps = value_names(gv) & set(names)
             unresolved = {d for d in deps if names[d] not in V}
             own = phname.get(loc)
+            if loc in refph:
+                # slice reference advancing by a constant stride
+                n1, n2 = refph[loc]
+                if gv[0] == "ref" and gv[1].cell == pre[loc][1].cell and gv[1].path[:-1] == pre[loc][1].path[:-1] and gv[1].path and gv[1].path[-1][0] == "br":
+                    br = gv[1].path[-1]
+                    d1 = br[1] - Lin.sym(n1)
+                    d2 = br[2] - Lin.sym(n2)
+                    if not ((d1.symbols() | d2.symbols()) & (set(names) | {var})):
+                        p0 = pre[loc][1].path[-1]
+                        base = pre[loc][1]
+                        V[loc] = ("ref", Target(base.cell, base.path[:-1] + (("br", p0[1] + d1 * v, p0[2] + d2 * v),)))
+                        final[loc] = ("ref", Target(base.cell, base.path[:-1] + (("br", p0[1] + d1 * N, p0[2] + d2 * N),)))
+                        pending.remove(loc)
+                        progress = True
+                        continue
+                raise Undecided("slice variable %r does not advance by a constant stride" % (loc,))
             if not unresolved:
                 # last-value
                 if veq(gv, pre[loc], Fi):
@@ -377,6 +481,8 @@ def summarise_loop(ip, st, fr, H):
             raise Undecided("element length depends on the index")
         m = T.bnorm((("m", var, ZERO, N, ln, tv[1]),), st.F)
         ip.store(sp, Target(loc[0], loc[1] + (("br", base, N * ln),)), vbytes(m))
+    for loc, a in affine.items():
+        ip.store(sp, Target(loc[0], loc[1]), affine_value(a, N))
     for loc, fv in final.items():
         if any(nm in value_names(fv) for nm in names):
             raise Undecided("final loop value still mentions carried state")
@@ -421,3 +527,126 @@ def unroll_loop(ip, st, fr, H, n):
     for s in states:
         s.loopmode[key] = ("done",)
     return states
+
+
+def while_trip_count(ip, st, fr, H, var, region):
+    """trip count of a condition-driven loop whose condition is a linear test over variables that
+    advance by constant strides (counters, slice references).  Returns None (zero iterations),
+    (N, True) or a list of states (case split on whether the loop is entered)."""
+    key = (fr.id, H)
+    sA = st.fork()
+    sA.loopmode[key] = ("while", var)
+    sA.wlog = []
+    outs = ip.exec_from(sA, fr, H, stop_at=H, start=True, region=region)
+    stops = [s for k, s, _ in outs if k == "stop"]
+    exits = [s for k, s, _ in outs if k == "exit"]
+    if not stops:
+        if not exits:
+            raise Undecided("loop at bb%d of %s neither iterates nor exits" % (H, fr.body["path"]))
+        return None
+    W = []
+    for s in stops:
+        for cell, path in s.wlog:
+            if cell in st.heap:
+                fpath, br, rest = split_path(path)
+                if (cell, fpath) not in W:
+                    W.append((cell, fpath))
+    ph = {}
+    syms = {}
+    for loc in W:
+        try:
+            pv = ip.load(st, Target(loc[0], loc[1]))
+        except Undecided:
+            continue
+        if pv[0] == "size":
+            nm = T.fresh("$a")
+            ph[loc] = vsize(Lin.sym(nm))
+            syms[nm] = (loc, 0, pv[1])
+        elif pv[0] == "ref" and pv[1].path and pv[1].path[-1][0] == "br":
+            n1, n2 = T.fresh("$a"), T.fresh("$a")
+            tg = pv[1]
+            ph[loc] = ("ref", Target(tg.cell, tg.path[:-1] + (("br", Lin.sym(n1), Lin.sym(n2)),)))
+            syms[n1] = (loc, 1, tg.path[-1][1])
+            syms[n2] = (loc, 2, tg.path[-1][2])
+    sB = st.fork()
+    sB.loopmode[key] = ("while", var)
+    # the placeholders stand for the values at the start of an arbitrary iteration: sizes and
+    # lengths are non-negative there
+    for nm, (loc, which, orig) in syms.items():
+        if which in (0, 2) and st.F.prove_ge(orig):
+            sB.F.add_ge(Lin.sym(nm))
+    for loc, v in ph.items():
+        ip.store(sB, Target(loc[0], loc[1]), v)
+    c0 = len(sB.conds)
+    outs = ip.exec_from(sB, fr, H, stop_at=H, start=True, region=region)
+    stops = [s for k, s, _ in outs if k == "stop"]
+    if len(stops) != 1:
+        raise Undecided("loop at bb%d of %s: %d ways around the loop from a symbolic state" % (H, fr.body["path"], len(stops)))
+    s1 = stops[0]
+    conds = [c for c in s1.conds[c0:]]
+    if len(conds) != 1 or conds[0][0] not in ("ge", "lt"):
+        raise Undecided("loop condition of %s is not a single linear comparison: %r" % (fr.body["path"], conds))
+    c = conds[0]
+    G = c[1] if c[0] == "ge" else (-c[1] - 1)
+    # strides
+    v = Lin.sym(var)
+    env = {}
+    steps = {}
+    for nm, (loc, which, orig) in syms.items():
+        nv = ip.load(s1, Target(loc[0], loc[1]))
+        if which == 0:
+            if nv[0] != "size":
+                raise Undecided("counter became %s" % nv[0])
+            step = nv[1] - Lin.sym(nm)
+        else:
+            if nv[0] != "ref" or not nv[1].path or nv[1].path[-1][0] != "br":
+                raise Undecided("slice variable lost its range")
+            step = nv[1].path[-1][which] - Lin.sym(nm)
+        if step.symbols() & (set(syms) | {var}):
+            if nm in G.symbols():
+                raise Undecided("loop condition depends on %r which does not advance by a constant stride" % (loc,))
+            continue
+        env[nm] = orig + step * v
+        steps[(loc, which)] = (orig, step)
+    if set(G.symbols()) & (set(syms) - set(env)):
+        raise Undecided("loop condition mentions a non-affine variable")
+    Gj = G.subst(env)
+    G0 = Gj.subst({var: ZERO})
+    G1 = Gj.subst({var: ONE})
+    B = G0 - G1
+    if (Gj - (G0 - B * v)) != ZERO:
+        raise Undecided("loop condition is not linear in the iteration index")
+    affine = {}
+    for loc, pv in ph.items():
+        if pv[0] == "size" and (loc, 0) in steps:
+            o, sp = steps[(loc, 0)]
+            affine[loc] = ("size", o, sp)
+        elif pv[0] == "ref" and (loc, 1) in steps and (loc, 2) in steps:
+            base = ip.load(st, Target(loc[0], loc[1]))[1]
+            affine[loc] = ("ref", base, steps[(loc, 1)], steps[(loc, 2)])
+    F = st.F
+    if not F.prove_ge(B - 1):
+        raise Undecided("loop in %s does not provably progress (stride %r)" % (fr.body["path"], B))
+    if B == ONE:
+        if F.prove_ge(G0):
+            return (G0 + 1, affine)
+        if F.prove_ge(-G0 - 1):
+            return None
+        s_in = st.fork()
+        s_in.assume(("ge", G0))
+        s_out = st
+        s_out.assume(("lt", G0))
+        return [x for x in (s_in, s_out) if not x.F.inconsistent()]
+    if not F.prove_ge(G0 + B):
+        raise Undecided("cannot bound the trip count of the loop in %s" % fr.body["path"])
+    k, d = prims.decompose(st, G0 + B, B)
+    return (k, affine)
+
+
+def affine_value(a, j):
+    """value of an affinely advancing variable at iteration j."""
+    if a[0] == "size":
+        return vsize(a[1] + a[2] * j)
+    base = a[1]
+    (lo0, s1), (ln0, s2) = a[2], a[3]
+    return ("ref", Target(base.cell, base.path[:-1] + (("br", lo0 + s1 * j, ln0 + s2 * j),)))
